@@ -160,6 +160,19 @@ func init() {
 		}))
 		RegisterIntrinsic(r+".Grow", wrap(func(x *Exec, s *State, c *CallCtx) Value { return nil }))
 	}
+	// ReadFrom: everything the reader still has is appended (reader shapes of readAllFrom)
+	RegisterIntrinsic("(*bytes.Buffer).ReadFrom", func(x *Exec, s *State, c *CallCtx) Value {
+		p := c.Args[0].(*PtrVal)
+		sv, ok := x.readAllFrom(s, c.Args[1])
+		if !ok {
+			x.fail("bytes.Buffer.ReadFrom on a reader the engine cannot see through: %s", x.showVal(c.Args[1]))
+		}
+		old := x.bufFieldIdx
+		x.bufFieldIdx = 0
+		x.bufSet(s, p, x.strConcat(x.bufGet(s, p), sv))
+		x.bufFieldIdx = old
+		return &TupleVal{E: []Value{sv.Len, nilErr(x)}}
+	})
 	RegisterIntrinsic("(*bytes.Buffer).Bytes", func(x *Exec, s *State, c *CallCtx) Value {
 		return x.strToBytes(s, x.bufGet(s, c.Args[0].(*PtrVal)))
 	})
@@ -296,6 +309,8 @@ func (x *Exec) readAllFrom(s *State, v Value) (*StrVal, bool) {
 	a := live[0]
 	name := a.T.String()
 	switch {
+	case name == "net/http.noBody":
+		return x.str(""), true
 	case name == "io.nopCloser" || name == "io.nopCloserWriterTo":
 		return x.readAllFrom(s, a.V.(*StructVal).F[0])
 	case name == "*io.multiReader":
